@@ -355,15 +355,17 @@ def packet_mutations(prog, wrapper_path, packet_adt):
     return out
 
 
-def wrappers_rule(ctx, prog, an):
+def wrappers_rule(ctx, prog, an, rid="R2.5", rid_err="R2.2", versions=(5, 7, 9, 10)):
     """R2.2/R2.5 on the four version wrappers (X::Parser::parse).  Evaluated on the helper-inlined return value, so a
     private constructor / error-builder helper may be extracted or inlined freely."""
     inner = {5: ("static_versions::v5::V5", "V5"), 7: ("static_versions::v7::V7", "V7"),
              9: ("variable_versions::v9::V9", "V9"), 10: ("variable_versions::ipfix::IPFix", "IPFix")}
     n = 0
     for ver, path in sorted(VERSION_PARSERS.items()):
+        if ver not in versions:
+            continue
         b = prog.body(path)
-        if not ctx.anchor("R2.5", path, b):
+        if not ctx.anchor(rid, path, b):
             continue
         ret = an.localx(b, 0)
         okv = peel(an.expand(an.interp._through("ok", ret)))
@@ -384,10 +386,12 @@ def wrappers_rule(ctx, prog, an):
                 good = bool(is_top and a0[0] == "arg" and pk_ok)
                 why = "Ok = ParsedNetflow{remaining: copy(%s), result: %s}" % (canon(rem)[:160], canon(pkt)[:160])
         n += 1
-        ctx.ob("R2.5", path, "tail-is-parser-remainder", good, why, site=site(b.span))
+        ctx.ob(rid, path, "tail-is-parser-remainder", good, why, site=site(b.span))
         for (wb, st) in packet_mutations(prog, path, inner[ver][0]):
-            ctx.ob("R2.5", path, "decoded-packet-not-modified", False,
+            ctx.ob(rid, path, "decoded-packet-not-modified", False,
                    "the decoded %s is modified after decoding (assignment into %s at %s): what is reported is no longer what the parser read" % (inner[ver][1], wb.path, site(st["span"])), site=site(st["span"]))
+        if rid_err is None:
+            continue
         # Err side
         errv = peel(an.expand(an.interp._through("err", ret)))
         good = False
@@ -402,8 +406,8 @@ def wrappers_rule(ctx, prog, an):
                 same = parse_call is not None and src is not None and canon(src) == canon(peel(parse_call[3][0]))
                 good = bool(cp is not None and same and vv == {ver})
                 why = "PartialParse{version=%s, remaining=copy(%s)}; parser input=%s" % (vv, canon(src)[:120] if src else "?", canon(peel(parse_call[3][0]))[:120] if parse_call else "?")
-        ctx.ob("R2.2", path, "partial-carries-original-bytes", good, why, site=site(b.span))
-    ctx.floor("R2.5", "wrappers", "version wrappers", n, 4)
+        ctx.ob(rid_err, path, "partial-carries-original-bytes", good, why, site=site(b.span))
+    ctx.floor(rid, "wrappers", "version wrappers", n, len(versions))
 
 
 def same_slice_value(an, prog, body, call_blk, call_t, err_blk):
